@@ -118,7 +118,7 @@ PROPS = {
     "C09": {"mc_quick": ["c09q"], "mc_thorough": ["c09q", "c09t", "deep"],
             "profiles": {"default": (80, 2000), "events": (120, 3000), "ondemand": (40, 1000)}, "conf": {"conf_full": (60, 800)}},
     "C10": {"mc_quick": ["c10"], "mc_thorough": ["c10", "c02od", "c05", "deep"],
-            "profiles": {"default": (80, 2000), "excl": (120, 3000), "ondemand": (40, 1000)}, "conf": {"conf_full": (40, 600), "conf_sig": (30, 400)}},
+            "profiles": {"default": (80, 2000), "excl": (120, 3000), "ondemand": (40, 1000), "reloadarb": (40, 1000)}, "conf": {"conf_full": (40, 600), "conf_sig": (30, 400)}},
     "C14": {"mc_quick": ["c14"], "mc_thorough": ["c14", "c04", "deep"],
             "profiles": {"hooks": (200, 5000)}, "conf": {"conf_full": (60, 800)}},
     "C11": {"mc_quick": ["c10", "c15"], "mc_thorough": ["c10", "c15t", "c05", "deep"],
